@@ -147,12 +147,16 @@ def oracle_tovec(payload):
 
 def parse_pipe(payload):
     """-> dict(threads=(exits, spawns), recs=[(tid, rec, time)], final=str)"""
-    m = re.match(r"threads=(\d+)/(\d+) ; (.*)$", payload)
+    m = re.match(r"threads=(\d+)/(\d+) exits=([\d,]*) ; (.*)$", payload)
     if not m:
         return None
-    body = m.group(3)
+    body = m.group(4)
+    lib_exits = [int(x) for x in m.group(3).split(",") if x]
     final = ""
+    ended_by_harness = None
     if "0:ENDALL@" in body:
+        mm = re.search(r"0:ENDALL@(\d+)", body)
+        ended_by_harness = int(mm.group(1)) if mm else None
         # what happens after the harness ended all remaining subscriptions is not part of the scenario proper
         j = body.index("0:ENDALL@")
         k = body.index("0:FINAL") if "0:FINAL" in body else len(body)
@@ -166,7 +170,7 @@ def parse_pipe(payload):
         mm = re.match(r"(\d+):(.*)@(\d+)$", tok)
         if mm:
             recs.append((int(mm.group(1)), mm.group(2), int(mm.group(3))))
-    return dict(threads=(int(m.group(1)), int(m.group(2))), recs=recs, final=final)
+    return dict(threads=(int(m.group(1)), int(m.group(2))), recs=recs, final=final, lib_exits=lib_exits, ended_by_harness=ended_by_harness)
 
 
 def user_events(recs, s=0):
@@ -353,11 +357,14 @@ def scen_threads(rng, n):
               "(timeout 20 (tsrc 0 (5 (n 1)) (50 (n 2))))", "(delay 5 (tsrc 0 (1 (n 1)) (1 (n 2)) (1 c)))",
               "(observe_on (observe_on (interval 10)))", "(merge (interval 10) (interval 15))", "(timeout 30 (interval 10))"]
     enders = ["(take 2 %s)", "(first %s)", "(take_until %s (timer 25))", "(amb %s (timer 12))", "(take_while (lt 2) %s)", "(take 3 (map inc %s))"]
+    def period(text):
+        ps = [int(x) for x in re.findall(r"\((?:interval|timer|timeout|debounce|delay) (\d+)", text)]
+        return max(ps) if ps else 0
     for mk in makers:
         for en in enders:
-            out.append(("(conc C15-%d (pipe (sub %s (react))))" % (i, en % mk), None)); i += 1
-        out.append(("(conc C15-%d (pipe (sub %s (react)) (unsub-after 0 37)))" % (i, mk), None)); i += 1
-        out.append(("(conc C15-%d (pipe (sub %s (react)) (unsub-after 0 0)))" % (i, mk), None)); i += 1
+            out.append(("(conc C15-%d (pipe (sub %s (react))))" % (i, en % mk), (period(en % mk), True))); i += 1
+        out.append(("(conc C15-%d (pipe (sub %s (react)) (unsub-after 0 37)))" % (i, mk), (period(mk), True))); i += 1
+        out.append(("(conc C15-%d (pipe (sub %s (react)) (unsub-after 0 0)))" % (i, mk), (period(mk), True))); i += 1
     # error / completion as the cause, repeated create-and-finish rounds
     out.append(("(conc C15-%d (pipe (sub (observe_on (error 5)) (react)) (sub (observe_on (empty)) (react)) (sub (take 1 (interval 5)) (react)) (settle 50) (sub (take 1 (interval 5)) (react))))" % i, None)); i += 1
     out.append(("(conc C15-%d (pipe (sub (retry 2 (observe_on (cold 0 (n 1) (e 5)))) (react))))" % i, None)); i += 1
@@ -374,6 +381,16 @@ def oracle_threads(payload, info):
         return m
     if d["threads"][0] != d["threads"][1]:
         return "%d of %d threads started for the subscription never exited" % (d["threads"][1] - d["threads"][0], d["threads"][1])
+    # bounded: every library thread is gone at most one timer period after the (single) subscription ended
+    if info is not None:
+        period, single = info
+        ends = [t for tid, r, t in d["recs"] if re.match(r"s0:[ec]", r) or r == "u0."]
+        if single and ends and d["ended_by_harness"] is not None:
+            end = min(ends)
+            late = [x for x in d["lib_exits"] if x > end + period and x < d["ended_by_harness"]]
+            late += [x for x in d["lib_exits"] if x > d["ended_by_harness"] + period]
+            if late:
+                return "a worker thread was still alive more than one timer period (%d) after the subscription ended at %d: exited at %s" % (period, end, late)
     return None
 
 
@@ -698,6 +715,22 @@ def run_conc(prop, tier, seed, jobs, write_evidence, write_replay, load_known):
     if cfg.get("info"):
         info = {x[0].split()[1]: x[1] for x in scen}
         scen = [x[0] for x in scen]
+    # corpus of minimised past failures runs first: `#info <json>` lines give the oracle's side information
+    cdir = os.path.join(os.path.dirname(os.path.dirname(os.path.abspath(__file__))), "corpus", prop)
+    if os.path.isdir(cdir):
+        extra, pending = [], None
+        for fn in sorted(os.listdir(cdir)):
+            for ln in open(os.path.join(cdir, fn)):
+                ln = ln.strip()
+                if ln.startswith("#info "):
+                    pending = json.loads(ln[6:])
+                elif ln.startswith("(conc "):
+                    sid = ln.split()[1]
+                    if pending is not None:
+                        info[sid] = tuple(pending) if isinstance(pending, list) else pending
+                    pending = None
+                    extra.append(ln)
+        scen = extra + scen
     iters = (5000 if thorough else 300) if cfg.get("model") else (1500 if thorough else 120)
     lines = run_scenarios(scen, seed, iters, "mixed", jobs)
     execs = [l for l in lines if l.count(" | ") >= 3]
